@@ -129,6 +129,24 @@ def app(op, *args):
     if op in ('index', 'upd') and len(args) >= 2 and args[1][0] == 'app' and args[1][1] == 'array' and len(args[1][2]) == 1:
         # x[[k]] on a one-dimensional array is x[k]: one spelling
         args = (args[0], args[1][2][0]) + tuple(args[2:])
+    if op == 'push' and len(args) == 2 and args[0][0] == 'app' and args[0][1] == 'array':
+        return mk('app', 'array', tuple(args[0][2]) + (args[1],))         # [a, b].push(c) is [a, b, c]
+    if op == 'index' and len(args) == 2 and args[1][0] == 'app' and args[1][1] == 'range' and len(args[1][2]) == 2 \
+            and args[0][0] == 'app' and args[0][1] == 'index' and len(args[0][2]) == 2 and args[0][2][1][0] == 'app' and args[0][2][1][1] == 'range' and len(args[0][2][1][2]) == 2:
+        a = args[0][2][1][2][0]                                           # x[a..b][c..d] is x[a+c..a+d]
+        return app('index', args[0][2][0], app('range', add(a, args[1][2][0]), add(a, args[1][2][1])))
+    if op == 'index' and len(args) == 2 and not (args[1][0] == 'app' and args[1][1] == 'range') \
+            and args[0][0] == 'app' and args[0][1] == 'index' and len(args[0][2]) == 2 and args[0][2][1][0] == 'app' and args[0][2][1][1] == 'range' and len(args[0][2][1][2]) == 2:
+        return app('index', args[0][2][0], add(args[0][2][1][2][0], args[1]))        # x[a..b][i] is x[a + i]
+    if op == 'concat' and any(a[0] == 'app' and a[1] == 'array' and not a[2] for a in args):
+        rest = [a for a in args if not (a[0] == 'app' and a[1] == 'array' and not a[2])]      # [] ++ x = x
+        if len(rest) == 1:
+            return rest[0]
+        if not rest:
+            return mk('app', 'array', ())
+        args = tuple(rest)
+    if op == 'shape' and len(args) == 1 and args[0][0] == 'app' and args[0][1] in ('zeros', 'ones') and len(args[0][2]) == 1 and args[0][2][0][0] == 'tuple':
+        return mk('app', 'array', tuple(args[0][2][0][1]))       # zeros((a, b)).shape() is [a, b]
     if op == 'len' and len(args) == 1 and args[0][0] == 'app' and args[0][1] == 'index' and len(args[0][2]) == 2:
         r = args[0][2][1]
         if r[0] == 'app' and r[1] == 'range' and len(r[2]) == 2:
@@ -434,7 +452,7 @@ def subst(t, mapping):
             if x[1] == 'inv' and len(x[2]) == 1:
                 r = div(ONE, go(x[2][0]))
             else:
-                r = mk('app', x[1], tuple(go(a) for a in x[2]))
+                r = app(x[1], *[go(a) for a in x[2]])           # (through the constructor: its normalisation rules apply to the new arguments)
         elif k == 'poly':
             r = ZERO
             for m, c in x[1]:
